@@ -55,26 +55,21 @@ Example C17_nonvacuous :
      = ([sb "A/1Min/G"; sb "B/1Min/G"], 3%nat, [0; 0; 0; 0; 0; 0; 0; 1]%nat).
 Proof. vm_compute. split; reflexivity. Qed.
 
-(** Outside every key space of ordinary names: catalog.load skips a directory called "metadata.db", but
-    AddTimeBucket installs it.  Full statement: after ONE create with any three non-empty dot-free components the
-    catalog equals a fresh scan.  Refuted by the symbol "metadata.db" (guard of the finding class: no component
-    is "metadata.db" or "category_name"). *)
+(** Regression of the former finding reserved-name-metadata-db (fixed: AddTimeBucket rejects the item name that
+    catalog.load skips): a create or auto-creating write of "metadata.db/1Min/G" is rejected, touches nothing, and the
+    running catalog lists what a restart lists. *)
+Example C17_metadata_db_rejected :
+  let '(w, c, codes) := run (sb "/a/b/c/r")
+      [ OpCreate (sb "metadata.db/1Min/G" ++ s_default_cat) true 2021 [x00];
+        OpWrite (sb "A/metadata.db/G") true [2021]%Z [x00];
+        OpCreate (sb "A/1Min/G" ++ s_default_cat) true 2021 [x00] ] in
+  let '(n, dm, _) := new_directory (mkW (wfs w) []) (sb "/a/b/c/r") in
+  (codes, map tbk_string (list_tbk c), map tbk_string (list_tbk (mkCat n dm)))
+  = ([1; 1; 0]%nat, [sb "A/1Min/G"], [sb "A/1Min/G"]).
+Proof. vm_compute. reflexivity. Qed.
+
 Definition plain_component (c : list byte) : bool :=
   negb (is_nil c) && negb (is_dot c) && negb (is_dotdot c) && negb (existsb (Byte.eqb slash) c) && negb (existsb (Byte.eqb colon) c).
-
-Definition C17_anyname_full : Prop := forall sy tf gr tag,
-  plain_component sy = true -> plain_component tf = true -> plain_component gr = true ->
-  let ops := [OpCreate (sy ++ slash :: tf ++ slash :: gr ++ s_default_cat) true 2021 tag] in
-  let '(w, c, _) := run (sb "/a/b/c/r") ops in
-  let '(n, dm, _) := new_directory (mkW (wfs w) []) (sb "/a/b/c/r") in
-  list_tbk c = list_tbk (mkCat n dm).
-
-Theorem C17_anyname_refuted : ~ C17_anyname_full.
-Proof.
-  intros H. specialize (H (sb "metadata.db") (sb "1Min") (sb "G") [x00] eq_refl eq_refl eq_refl).
-  vm_compute in H. discriminate H.
-Qed.
-Print Assumptions C17_anyname_refuted.
 
 (** The general statement (all bucket names, years and schemas) is not proved symbolically; it is kept here as a
     definition.  See notes/C17.md. *)
